@@ -210,6 +210,11 @@ func (e StdEng) Dot(x, y Tensor, opts ...FuncOpt) (retVal Tensor, err error) {
 				err = errors.Errorf(shapeMismatch, a.Shape(), b.Shape())
 				return
 			}
+			if reuse != nil || incr != nil {
+				// the inner product comes back as a new scalar: a destination would be ignored
+				err = errors.Errorf("Dot of two vectors does not support WithReuse or WithIncr")
+				return
+			}
 			var ret interface{}
 			if ret, err = e.Inner(a, b); err != nil {
 				return nil, errors.Wrapf(err, opFail, "Dot")
@@ -288,6 +293,12 @@ func (e StdEng) Dot(x, y Tensor, opts ...FuncOpt) (retVal Tensor, err error) {
 
 	if as[lastA] != bs[secondLastB] {
 		err = errors.Errorf(shapeMismatch, as, bs)
+		return
+	}
+
+	if incr != nil {
+		// the contraction below builds its own result: an increment tensor would be ignored
+		err = errors.Errorf("Dot of tensors with three or more dimensions does not support WithIncr")
 		return
 	}
 
